@@ -19,6 +19,9 @@ type Bars struct {
 	Volume []float64 `json:"volume"`
 	X      []float64 `json:"x"`
 	Y      []float64 `json:"y"`
+	// Exp: prices and the free series were multiplied by 2^Exp (exact), the unit of quote of a
+	// penny stock, a crypto pair or an index; 0 in most draws.
+	Exp int `json:"exp,omitempty"`
 }
 
 // Len is the number of bars.
@@ -47,7 +50,23 @@ func (b Bars) Field(name string) []float64 {
 
 // Cut returns the first n bars.
 func (b Bars) Cut(n int) Bars {
-	return Bars{Class: b.Class, Open: b.Open[:n], High: b.High[:n], Low: b.Low[:n], Close: b.Close[:n], Volume: b.Volume[:n], X: b.X[:n], Y: b.Y[:n]}
+	return Bars{Class: b.Class, Exp: b.Exp, Open: b.Open[:n], High: b.High[:n], Low: b.Low[:n], Close: b.Close[:n], Volume: b.Volume[:n], X: b.X[:n], Y: b.Y[:n]}
+}
+
+// Unscaled returns the bars at their natural unit (divided by 2^Exp, which is exact).
+func (b Bars) Unscaled() Bars {
+	if b.Exp == 0 {
+		return b
+	}
+	f := math.Ldexp(1, -b.Exp)
+	mul := func(xs []float64) []float64 {
+		out := make([]float64, len(xs))
+		for i, x := range xs {
+			out[i] = x * f
+		}
+		return out
+	}
+	return Bars{Class: b.Class, Open: mul(b.Open), High: mul(b.High), Low: mul(b.Low), Close: mul(b.Close), Volume: b.Volume, X: mul(b.X), Y: mul(b.Y)}
 }
 
 // Classes of series.
@@ -190,6 +209,20 @@ func GenBarsOf(t *rapid.T, n int, class string) Bars {
 			b.X[i] = math.Round(b.X[i]*100*1.37) / 100
 			b.Y[i] = math.Round(b.Y[i]*100*1.37) / 100
 			b.Volume[i] = b.Volume[i]*13 + 7
+		}
+	}
+	// the unit of quote: an exact power-of-two factor on prices (not on volumes); an absolute
+	// tolerance or threshold in price units shows here and nowhere else
+	if rapid.IntRange(0, 5).Draw(t, "scaled") == 0 {
+		b.Exp = rapid.SampledFrom([]int{-40, -32, -20, -10, 10, 20, 30}).Draw(t, "exp")
+		f := math.Ldexp(1, b.Exp)
+		for i := 0; i < n; i++ {
+			b.Open[i] *= f
+			b.High[i] *= f
+			b.Low[i] *= f
+			b.Close[i] *= f
+			b.X[i] *= f
+			b.Y[i] *= f
 		}
 	}
 	return b
